@@ -100,6 +100,13 @@ package workers
 //@   ensures [cleanups] forall j int :: 0 <= j && j < GnCleanups ==> Gcalled[j] == old(Gcalled[j]) + 1
 //@   ensures [done] Gphase == 8 && tracks(s.progress) && state.t.tearingDown && wfState(state)
 //@
+//@ func NewActiveScenario
+//@   props C14 C08 C06
+//@   requires scenario != nil
+//@   modifies nothing
+//@   ensures [built] result != nil && fresh(result) && result.scenario == scenario && result.m == metricsInstance && result.progress == stats &&
+//@           wfT(result.t) && fresh(result.t) && !result.t.failed && !result.t.tearingDown && isBound(result.Teardown, result.t, "teardown")
+//@
 //@ // ---- setup (C06, C16): the scenario's setup function runs once, recovered; its outcome is read after the
 //@ // recovery and exactly one setup sample is exported with that outcome.
 //@ func (*ActiveScenario).Setup$1
